@@ -6,6 +6,7 @@ import (
 	"path/filepath"
 	"sort"
 
+	"seehuhn.de/go/sfnt"
 	"seehuhn.de/go/sfnt/cmap"
 	"seehuhn.de/go/sfnt/glyph"
 	"seehuhn.de/go/sfnt/header"
@@ -146,4 +147,27 @@ func (g *aliasGuard) Check(k *mon.Case, witness string) bool {
 		}
 	}
 	return true
+}
+
+// readBack writes a constructed font and reads it again, so that a check
+// works on the structures the reader builds (closures, slices with spare
+// capacity, synthesised tables) rather than on the generator's.  Failures are
+// not judged here (that is C01's business): the font is returned unchanged.
+func readBack(k *mon.Case, f *sfnt.Font) *sfnt.Font {
+	var g *sfnt.Font
+	pv, _ := mon.Try(func() {
+		buf := &bytes.Buffer{}
+		if _, err := f.Write(buf); err != nil {
+			return
+		}
+		if h, err := sfnt.Read(bytes.NewReader(buf.Bytes())); err == nil {
+			g = h
+		}
+	})
+	if pv != nil || g == nil {
+		k.Class("font:read-back-failed")
+		return f
+	}
+	k.Class("font:read-back")
+	return g
 }
